@@ -19,6 +19,7 @@ import re
 from vlib import facts as F, flow
 from vlib.core import site_of
 from rules import malsec
+from rules.C07 import params as C07params
 
 LEVEL = "other"
 EXPLANATION = "C19: destination/keep-or-send dataflow, per-destination counters, close-all pairing, error propagation and order-determinism shape of reshard_try_stream."
@@ -49,6 +50,7 @@ def run(ctx):
     order(ctx, facts, send, main)
     split(ctx, facts)
     err_adapters(ctx, facts)
+    wrappers(ctx, facts)
     ctx.assume("gateway delivery (C13) and message timing are not decided here")
 
 
@@ -336,3 +338,65 @@ def err_adapters(ctx, facts):
         ctx.ob("ERR-adapter", b.path, bad is None, "an inner Some(Err(e)) is passed on as an error" if bad is None else "on the inner stream's Some(Err(_)) edge this adapter returns something else (e.g. Ready(None)): the transport error is swallowed and the consumer sees a normal end of stream — records are silently dropped",
                site_of(b, bad[0], bad[1]) if bad else site_of(b))
     ctx.floor("ERR-adapter", "Result-item stream adapters", n, 1)
+
+
+# ---------------------------------------------------------------------------------------------
+def wrappers(ctx, facts):
+    """The entry points most protocols use are thin wrappers around reshard_try_stream; the fan-in of the receive side
+    covers every peer shard exactly once and labels each item with the shard it came from."""
+    ctx.rule("WRAP: reshard_stream = reshard_try_stream(ctx, input.map(Ok), picker) and reshard_iter = reshard_stream(ctx, stream::iter(input), picker), results returned unchanged; recv_from_shards = select_all over peer_shards() of shard_recv_channel(origin) with every item labelled by that same origin")
+    flow_old = flow.CLOSURE_DEFS
+    flow.CLOSURE_DEFS = True
+    try:
+        for root, callee, inner_rx in (("protocol::context::reshard_stream", "protocol::context::reshard_try_stream", r"StreamExt::map$"), ("protocol::context::reshard_iter", "protocol::context::reshard_stream", r"stream::iter$")):
+            b = malsec.async_body(facts, root)
+            if b is None:
+                ctx.missing("WRAP", root)
+                continue
+            ctx.count(bodies=1)
+            name = root.split("::")[-1]
+            pn = C07params(facts, root)
+            cs = flow.find_calls(b, re.compile(re.escape(callee) + "$"))
+            ok = False
+            why = f"{name} does not call {callee.split('::')[-1]} exactly once"
+            if len(cs) == 1:
+                a = [flow.expr_of(b, x, max_depth=20) for x in cs[0][1]["args"]]
+                okc = a[0] == ("upvar", pn.get(1)) and a[2] == ("upvar", pn.get(3))
+                src = a[1]
+                shape = src[0] == "call" and re.search(inner_rx, src[1]) is not None
+                if shape and src[1].endswith("StreamExt::map"):
+                    shape = src[2][0] == ("upvar", pn.get(2)) and src[2][1] == ("fn", "std::prelude::v1::Ok")
+                elif shape:
+                    inner = src[2][0]
+                    while inner[0] == "call" and inner[1].endswith("IntoIterator::into_iter"):
+                        inner = inner[2][0]
+                    shape = inner == ("upvar", pn.get(2))
+                ret = flow.expr_of(b, {"cp": [0]}, max_depth=40)
+                okr = malsec.value_source(ret, re.escape(callee) + "$") is not None and "Try::branch" not in str(ret)[:200]
+                ok = okc and shape and okr
+                why = "context, every input item and the picker are handed on unchanged and the callee's result is returned" if ok else ("the context or the shard picker handed on is not the caller's" if not okc else ("the items handed on are not exactly the caller's input (filtered, mapped or truncated)" if not shape else "the callee's result is not returned as is"))
+            ctx.ob("WRAP", f"{name}:forwards", ok, why, site_of(b, cs[0][0]) if cs else site_of(b))
+        # recv_from_shards
+        root = "protocol::context::ShardedContext::recv_from_shards"
+        b = facts.bodies.get(root)
+        if b is None:
+            ctx.missing("WRAP", root)
+        else:
+            ctx.count(bodies=3)
+            ret = flow.expr_of(b, {"cp": [0]}, max_depth=20)
+            ok = ret[0] == "call" and ret[1].endswith("stream::select_all") and ret[2][0][0] == "call" and ret[2][0][1].endswith("Iterator::map") and ret[2][0][2][0] == ("call", "sharding::ShardConfiguration::peer_shards", (("arg", 1),))
+            ctx.ob("WRAP", "recv_from_shards:all-peers-merged", ok, "select_all(peer_shards().map(..))" if ok else "the receive side does not merge one stream per peer shard (a shard's rows would never be received)", site_of(b))
+            per = facts.bodies.get(root + "::{closure#0}")
+            lab = facts.bodies.get(root + "::{closure#0}::{closure#0}")
+            okp = okl = False
+            if per is not None and lab is not None:
+                rc = flow.find_calls(per, re.compile(r"shard_recv_channel$"))
+                okp = len(rc) == 1 and flow.expr_of(per, rc[0][1]["args"][1]) == ("arg", 2)
+                mp = flow.find_calls(per, re.compile(r"StreamExt::map$"))
+                cap = flow.expr_of(per, mp[0][1]["args"][1], max_depth=8) if mp else None
+                okp = okp and cap is not None and cap[0] == "agg" and cap[2] == (("arg", 2),)
+                r2 = flow.expr_of(lab, {"cp": [0]}, max_depth=8)
+                okl = r2[0] == "agg" and r2[1] == "tuple" and len(r2[2]) == 2 and r2[2][0][0] == "upvar" and r2[2][1] == ("arg", 2)
+            ctx.ob("WRAP", "recv_from_shards:labelled-with-origin", okp and okl, "items of shard_recv_channel(origin) are labelled (origin, item)" if okp and okl else "a received item is not labelled with the shard whose channel it came from (rows are filed under the wrong origin: global order differs between helpers)", site_of(per) if per is not None else site_of(b))
+    finally:
+        flow.CLOSURE_DEFS = flow_old
